@@ -90,9 +90,22 @@ Definition storable (d : dtype) : bool := smem (arr_dtype_name d) valid_dtypes.
 (* "If dtype is float16, upcasts to float32": values.astype(float32) is also assigned back into the
    property dict the caller handed in, so the array kept in node_props / edge_props changes with it;
    an object array (variable-length property) is not a float16 array *)
+Definition upcast_velem (e : varr) : varr :=
+  if dtype_eqb (v_dt e) DF16 then Build_varr DF32 (v_shape e) (v_flat e) else e.
 Definition upcast_arr (a : parr) : parr :=
   match a_payload a with
-  | PVarlen _ => a
+  | PVarlen elems =>
+      (* an object array whose elements are all float16 arrays: every element is upcast (after the dtype check of
+         create_props_metadata, which therefore still rejects float16 beside float32) and the new object array is assigned
+         back into the property dict; any other object array is left alone *)
+      match elems with
+      | e0 :: _ =>
+          if dtype_eqb (v_dt e0) DF16 && forallb (fun e => dtype_eqb (v_dt e) (v_dt e0)) elems
+          then {| a_dt := a_dt a; a_len := a_len a; a_tail := a_tail a; a_payload := PVarlen (map upcast_velem elems);
+                  a_missing := a_missing a |}
+          else a
+      | [] => a
+      end
   | _ => if dtype_eqb (a_dt a) DF16
          then {| a_dt := DF32; a_len := a_len a; a_tail := a_tail a; a_payload := a_payload a; a_missing := a_missing a |}
          else a
